@@ -513,3 +513,25 @@ func setterAdmitsZero(r *Run, key, fnName, field string) {
 		r.ob(key, "the timeout setter stores a zero duration too: 0 is how a timeout that was set is cleared again (a read or flush after SetXTimeout(0) waits without limit)", fn, ins, admits, detail, true)
 	}
 }
+
+// phiLeaves flattens one or two levels of phi nodes.
+func phiLeaves(v ssa.Value) []ssa.Value {
+	var out []ssa.Value
+	var walk func(x ssa.Value, d int)
+	seen := map[ssa.Value]bool{}
+	walk = func(x ssa.Value, d int) {
+		if seen[x] {
+			return
+		}
+		seen[x] = true
+		if ph, ok := x.(*ssa.Phi); ok && d < 3 {
+			for _, e := range ph.Edges {
+				walk(e, d+1)
+			}
+			return
+		}
+		out = append(out, x)
+	}
+	walk(v, 0)
+	return out
+}
